@@ -2,7 +2,10 @@
     instantiated at it.  A mutated reader (grouping column dropped, scenario sort removed, different
     development step in index and inverse) makes a [spec_ok] evaluate to false. *)
 From Coq Require Import ZArith List Bool.
-From Bermuda Require Import Model.Base Model.Frame Model.MatrixIx Proofs.FrameLib Proofs.FrameKey.
+From Bermuda Require Import Model.Base Model.Frame Model.MatrixIx Proofs.FrameLib Proofs.FrameKey
+     Proofs.FrameExample Proofs.FrameWide4 Proofs.FrameLong Proofs.MatrixIxP Proofs.MatrixIxP2.
+From Coq Require Import Sorting.Permutation.
+Local Open Scope Z_scope.
 From Gen Require Import GenFrame.
 Import ListNotations.
 
@@ -28,7 +31,30 @@ Theorem C14_long_key_separates : forall cols dcols lcols (r1 r2 : row),
   = row_key (key_cols (fs_long_key frame) cols dcols lcols) r2 ->
   forall c, In c ([c_ps; c_pe; c_ev; c_field] ++ meta_col_names ++ dcols ++ lcols) -> get c r1 = get c r2.
 Proof. intros cols dcols lcols r1 r2. apply long_key_separates. exact C14_frame_spec_ok. Qed.
+(* (W) at the readers of the CURRENT source: writing a triangle to the wide frame and reading it back with
+   the grouping key lists / constants / sort columns extracted from /repo returns floatify t *)
+Theorem C14_wide_round_trip_generated : forall fn dn ln t,
+  frame_hyps fn dn ln t = true -> wide_trip frame fn dn ln t = Ok (floatify t).
+Proof. intros fn dn ln t. apply wide_round_trip. exact C14_frame_spec_ok. Qed.
+Theorem C14_long_round_trip_generated : forall fn dn ln t,
+  frame_hyps fn dn ln t = true -> long_trip frame dn ln t = Ok (floatify t).
+Proof. intros fn dn ln t. apply (long_round_trip frame fn). exact C14_frame_spec_ok. Qed.
+Theorem C14_long_csv_round_trip_generated : forall fn dn ln t,
+  frame_hyps fn dn ln t = true -> long_trip_csv frame dn ln t = Ok (floatify_merged t).
+Proof. intros fn dn ln t. apply (long_round_trip_csv frame fn). exact C14_frame_spec_ok. Qed.
+(* (M) at the index / inverse steps of the CURRENT source *)
+Theorem C14_matrix_round_trip_generated : forall t fields ix,
+  semi_regular t = true -> index_from_triangle t fields = Ok ix ->
+  ((dev_res ix | exp_res ix) \/ (exp_res ix | dev_res ix)) -> NoDup fields ->
+  (forall c, In c t -> grid_cell_sub (exp_res ix) fields c) -> NoDup t ->
+  (forall c c', In c t -> In c' t -> cmeta c = cmeta c' -> ps c = ps c' -> ev c = ev c' -> c = c') ->
+  exists out, matrix_round_trip mspec t fields = Ok out /\ Permutation out (floatify t).
+Proof. intros t fields ix. apply matrix_round_trip_nested_sub; vm_compute; reflexivity. Qed.
 Print Assumptions C14_frame_spec_ok.
 Print Assumptions C14_matrix_spec_ok.
 Print Assumptions C14_wide_key_separates.
 Print Assumptions C14_long_key_separates.
+Print Assumptions C14_wide_round_trip_generated.
+Print Assumptions C14_long_round_trip_generated.
+Print Assumptions C14_long_csv_round_trip_generated.
+Print Assumptions C14_matrix_round_trip_generated.
